@@ -334,7 +334,7 @@ func c10Check(c c10Case) fw.Outcome {
 // genC10Leaf: leaf objects on a small lattice, valid enough for Parse when wanted.
 func genC10Leaf(t *rapid.T, parseable bool) objSpec {
 	lp := func(label string) fpt {
-		return fpt{F(rapid.IntRange(0, 8).Draw(t, label+"x")), F(rapid.IntRange(0, 8).Draw(t, label+"y"))}
+		return fpt{F(rapid.IntRange(3, 11).Draw(t, label+"x")), F(rapid.IntRange(3, 11).Draw(t, label+"y"))}
 	}
 	kinds := []string{"Point", "LineString", "Polygon", "Polygon", "Rect", "SimplePoint"}
 	if parseable {
@@ -395,7 +395,7 @@ func genC10Coll(t *rapid.T, depth int, parseable bool, maxChildren int) objSpec 
 				s.Pts = append(s.Pts, s.Pts[0])
 				continue
 			}
-			p := fpt{F(rapid.IntRange(0, 8).Draw(t, "mx")), F(rapid.IntRange(0, 8).Draw(t, "my"))}
+			p := fpt{F(rapid.IntRange(3, 11).Draw(t, "mx")), F(rapid.IntRange(3, 11).Draw(t, "my"))}
 			s.Pts = append(s.Pts, p)
 			_ = leaf
 		case "MultiLineString":
@@ -405,7 +405,7 @@ func genC10Coll(t *rapid.T, depth int, parseable bool, maxChildren int) objSpec 
 			}
 			var l []fpt
 			for k := rapid.IntRange(lo, 4).Draw(t, "mln"); k > 0; k-- {
-				l = append(l, fpt{F(rapid.IntRange(0, 8).Draw(t, "mlx")), F(rapid.IntRange(0, 8).Draw(t, "mly"))})
+				l = append(l, fpt{F(rapid.IntRange(3, 11).Draw(t, "mlx")), F(rapid.IntRange(3, 11).Draw(t, "mly"))})
 			}
 			s.Rings = append(s.Rings, l)
 		case "MultiPolygon":
@@ -462,7 +462,7 @@ func c10Gen(t *rapid.T) c10Case {
 	default:
 		c.Probe = genC10Leaf(t, false)
 	}
-	x0, y0 := rapid.IntRange(-1, 9).Draw(t, "qx0"), rapid.IntRange(-1, 9).Draw(t, "qy0")
+	x0, y0 := rapid.IntRange(2, 12).Draw(t, "qx0"), rapid.IntRange(2, 12).Draw(t, "qy0")
 	c.Query = [4]int{x0, y0, x0 + rapid.IntRange(0, 5).Draw(t, "qw"), y0 + rapid.IntRange(0, 5).Draw(t, "qh")}
 	c.Stop = rapid.IntRange(0, 4).Draw(t, "stop")
 	return c
